@@ -393,8 +393,8 @@ def r5_progress(report, repo):
 
 
 def run(report, repo):
-  r1_responses(report, repo)
-  r2_data_phase(report, repo)
-  r3_commands(report, repo)
-  r4_transfer(report, repo)
-  r5_progress(report, repo)
+  report.guard(r1_responses, report, repo)
+  report.guard(r2_data_phase, report, repo)
+  report.guard(r3_commands, report, repo)
+  report.guard(r4_transfer, report, repo)
+  report.guard(r5_progress, report, repo)
